@@ -222,8 +222,12 @@ Fixpoint map_opt {A B} (f : A -> option B) (l : list A) : option (list B) :=
 Record options := mkopts {
   o_parserfns : bool;          (* expand_parserfns *)
   o_sel : selection;
-  o_pre_propagates : bool      (* need_pre_expand forces expand_all in the body (false for en/wiktionary) *)
+  o_pre_propagates : bool;     (* need_pre_expand forces expand_all in the body (false for en/wiktionary) *)
+  o_tfn : list (str * str);    (* template_fn: names for which the hook returns a string (None otherwise) *)
+  o_pfn : list (str * str)     (* post_template_fn: names for which the hook returns a replacement *)
 }.
+Definition hook_ret (tbl : list (str * str)) (name : str) : option str :=
+  match find (fun p => str_eqb (fst p) name) tbl with Some p => Some (snd p) | None => None end.
 
 Section Expander.
   Variable pfnames : list str.       (* keys of PARSER_FUNCTIONS (Gen.GenData.parser_functions) *)
@@ -385,8 +389,20 @@ Section Expander.
                   match build_args f stk1 more 1 [] with
                   | None => None
                   | Some ht =>
+                    let post := fun (t : enc) =>
+                      let t1 := add_newline t in
+                      match t1 with
+                      | [] => t1
+                      | _ => match hook_ret (o_pfn opts) name with
+                             | Some r => chars r
+                             | None => t1
+                             end
+                      end in
+                    match hook_ret (o_tfn opts) name with
+                    | Some r => Some (post (chars r))
+                    | None =>
                     match find_tpl lib name with
-                    | None => Some (add_newline (chars (missing_tpl name)))
+                    | None => Some (post (chars (missing_tpl name)))
                     | Some t =>
                       let body := match t_body t with
                                   | Ch c :: _ => if (c =? 35) || (c =? 42) || (c =? 59) || (c =? 58)
@@ -397,10 +413,11 @@ Section Expander.
                       | None => None
                       | Some sub =>
                         match expand_recurse f stk1 (expand_all || (t_pre t && o_pre_propagates opts)) sub with
-                        | Some out => Some (add_newline out)
+                        | Some out => Some (post out)
                         | None => None
                         end
                       end
+                    end
                     end
                   end
           end
